@@ -54,9 +54,11 @@ try:
     import lingpy
     from lingpy import rc
     h = hashlib.sha256()
+    out['converters'] = {}
     for m in ['asjp', 'sca', 'dolgo', '_color', 'art', 'cv', 'jaeger', 'model']:
         M = rc(m)
         h.update(repr(sorted(M.converter.items())).encode())
+        out['converters'][M.name] = hashlib.sha256(repr(sorted(M.converter.items())).encode()).hexdigest()
         if hasattr(M, 'scorer'):
             h.update(repr(sorted(M.scorer.chars2int.items())).encode())
             h.update(repr(M.scorer.matrix).encode())
